@@ -1,7 +1,7 @@
 SPECIFICATION Spec
 CONSTANTS
   Tier = "mut"
-  Fams = {"assign", "ctl", "clos"}
+  Fams = {"slice", "struct", "clos", "ctl"}
   MaxSteps = 600
   Predict = FALSE
   MaxMut = 1
